@@ -165,6 +165,7 @@ class Session:
         self.hook_log = []
         self.with_raw = with_raw
         self.with_xf = with_xf
+        self.xf_scale = 1 if exact else 10000      # integer sub-group: the linear part is integral
         self.probe_hook = None
         self.ext_hook = None
         self.init_rep = self.snapshot()
@@ -407,7 +408,7 @@ class Session:
         t = self.g.transform
         o = t.apply_transform((0.0, 0.0, 0.0))
         cols = [t.apply_transform(e) for e in ((1.0, 0.0, 0.0), (0.0, 1.0, 0.0), (0.0, 0.0, 1.0))]
-        a = [[int(round((cols[j][i] - o[i]) * 10000)) for j in range(3)] for i in range(3)]
+        a = [[int(round((cols[j][i] - o[i]) * self.xf_scale)) for j in range(3)] for i in range(3)]
         return {"a": a, "b": [int(round(c * self.U)) for c in o]}
 
     def apply(self, d):
@@ -438,7 +439,7 @@ class Session:
         return hook in getattr(self.g, "_hooks", [])
 
     def trace(self, meta=None):
-        m = {"dp": self.dp, "U": self.U, "exact": self.exact, "xf": self.with_xf}
+        m = {"dp": self.dp, "U": self.U, "exact": self.exact, "xf": self.with_xf, "SC": self.xf_scale}
         if meta:
             m.update(meta)
         return {"meta": m, "init": self.init_rep, "ev": self.events}
